@@ -1120,7 +1120,7 @@ func runResponseStream(c *Ctx, n int, focus string) {
 		// encrypt some assertions (genuine IdP behaviour: sign assertion, encrypt, [sign response] is not reproducible
 		// after response signing, so genuine encryption is only used when the response itself is unsigned)
 		encrypted := false
-		if (placement == 2 || placement == 0) && r.Intn(5) == 0 && focus != "C02" {
+		if (placement == 2 || placement == 0) && r.Intn(5) == 0 && focus != "C02" && !(hugeFirst && k < 500) {
 			root := doc.Root()
 			for i, el := range assertionChildren(root) {
 				eo := g.randEncOpts(w)
@@ -1179,7 +1179,7 @@ func runResponseStream(c *Ctx, n int, focus string) {
 					}
 				}
 				// attacker-side encryption of a forged / unsigned plaintext
-				if (focus == "C07" || focus == "C01" || focus == "C04") && r.Intn(4) == 0 {
+				if (focus == "C07" || focus == "C01" || focus == "C04") && r.Intn(4) == 0 && !hugeFirst {
 					f, _ := g.forgedAssertion(rs.Style, "")
 					d := etree.NewDocument()
 					d.SetRoot(f)
